@@ -127,6 +127,14 @@ CHECKS = {
             "Only manifests ninja 1.11 accepts and on which the evaluator agrees with ninja are judged (others counted); "
             "LF line endings; a build's own bindings are not referenced from its own path list; no `default` statements.",
             "DESIGN 2/C17"),
+    "C18": ("exploration", "hypothesis+llbuild-ninja",
+            "model-based PBT: generated Ninja manifests x edit/fault histories through the `llbuild ninja build` CLI (new process per build) vs manifest evaluator; must/may started-set invariant; null-build check",
+            "No counter-example among generated manifests x histories: outputs equal the evaluator's after every successful "
+            "build; immediate rebuilds start nothing (with a database); after a single change the started set lies between "
+            "the must and may sets (order-only edges never propagate, implicit/depfile-discovered edges do, a changed "
+            "command line re-runs its command); failing commands stop dependents and are retried.",
+            "Outputs are deleted but never tampered with (Ninja's newer-than model); order-only inputs are not read by commands; "
+            "logical clock for mtimes.", "DESIGN 2/C18"),
 }
 
 NOT_APPLICABLE = {
@@ -169,6 +177,8 @@ def main():
             "add_only": True,
         },
         "engines": [
+            {"name": "hypothesis+llbuild-ninja", "path": "pbt/c18.py", "serves_properties": ["C18"],
+             "kind_free_text": "Hypothesis histories driving the stock `llbuild ninja build` CLI over vtool workspaces"},
             {"name": "hypothesis+ninjadump+ninja", "path": "pbt/c17.py + harness/ninjadump.cpp", "serves_properties": ["C17"],
              "kind_free_text": "Hypothesis grammar generator; llbuild side = hex dump of the loaded ninja::Manifest; reference = Python evaluator cross-checked against /usr/bin/ninja 1.11"},
             {"name": "hypothesis+bsx", "path": "pbt/bs_model.py + harness/bsx.cpp + harness/vtool.c",
